@@ -7,5 +7,6 @@ import ThriftVerif.Facts.ExpectGen
 #print axioms ThriftVerif.Properties.C14.set_containment_lemma
 #print axioms ThriftVerif.Properties.C14.slice_set_not_symm_with_dups
 #print axioms ThriftVerif.Properties.C14.list_order_sensitive
+#print axioms ThriftVerif.Properties.C14.equals_iff_wire_equal
 #print axioms ThriftVerif.Properties.C14.nil_handling
 #print axioms ThriftVerif.Facts.ExpectWire.typeCodes_ok
